@@ -411,13 +411,11 @@ pub fn run(args: &Args) -> i32 {
             }
             let g = FixedPointI8::new_raw(r as i16);
             let ri = r as i16;
-            let fl = (ri >> 8) as i8; // floor
-            let tr = (ri / 256) as i8; // truncation
-            if g.raw_value() != ri || (g.value() != fl && g.value() != tr) {
-                fail(&mut rep, "fixed_i8", Fail { rule: "fixed_i8_raw", detail: json!({"raw": ri, "value": g.value()}) });
-            }
-            if ri % 256 == 0 && g.value() != fl {
-                fail(&mut rep, "fixed_i8", Fail { rule: "fixed_i8_int", detail: json!({"raw": ri, "value": g.value()}) });
+            // integer part = the value rounded towards zero (what `Ratio::to_integer`, the
+            // wrapper's representation, documents; floor differs for negative non-integers only)
+            let tr = (ri / 256) as i8;
+            if g.raw_value() != ri || g.value() != tr {
+                fail(&mut rep, "fixed_i8", Fail { rule: "fixed_i8_raw", detail: json!({"raw": ri, "value": g.value(), "want_integer_part": tr}) });
             }
             n += 2;
             rep.cover_nt(0x2_0000_0000 | r as u64);
